@@ -63,6 +63,9 @@ type Cfg struct {
 	// SkipHeaderCheck switches the RFC header check of the drivers' own Reader off (valid
 	// streams must read the same with and without it)
 	SkipHeaderCheck bool
+	// BetweenCalls, when set, runs before every NextFrame and every Read of the Reader-loop
+	// drivers (the application doing something to its Reader between two calls)
+	BetweenCalls func(rd *wsutil.Reader)
 }
 
 // WithSkipHeaderCheck is d with Reader.SkipHeaderCheck set (for the drivers that build their
@@ -236,6 +239,9 @@ func readerLoop(buf, lazy, contReads int) Driver {
 			}
 			full := make([]byte, size)
 			for it := 0; it < maxIter; it++ {
+				if cfg.BetweenCalls != nil {
+					cfg.BetweenCalls(rd)
+				}
 				h, err := rd.NextFrame()
 				if _, transient := err.(env.TempErr); transient {
 					// a transport error that calls itself temporary: the application tries again
@@ -255,6 +261,9 @@ func readerLoop(buf, lazy, contReads int) Driver {
 					b := full
 					if alternating && jt >= 1 {
 						b = full[:1]
+					}
+					if cfg.BetweenCalls != nil {
+						cfg.BetweenCalls(rd)
 					}
 					n, err := rd.Read(b)
 					if n < 0 || n > len(b) {
